@@ -51,12 +51,17 @@ theorem chain_new (n : Nat) : ∀ (k s : Nat), 0 < s → s + k = n →
     · have h1 : ¬ (s = 0 ∨ s + 1 = n) := by omega
       simpa [hk, h1] using this
 
-theorem inv_new (n : Nat) (h : 2 ≤ n) : Inv (Gc.new n) := by
+theorem inv_new (n : Nat) (h : 1 ≤ n) : Inv (Gc.new n) := by
   refine ⟨List.range' 1 (n - 1), ?_⟩
   have hc := chain_new n (n - 1) 1 (by omega) (by omega)
-  have hk : ¬ (n - 1 = 0) := by omega
-  simp only [hk, if_false] at hc
-  refine ⟨objAt_new n 0, by simpa [Gc.new] using hc, List.nodup_range', fun x _ => objAt_new n x, ?_, ?_, ?_,
+  have hfree : (Gc.new n).free = (if n - 1 = 0 then 0 else 1) := by
+    simp only [Gc.new]
+    by_cases hn : 1 < n
+    · have : ¬ (n - 1 = 0) := by omega
+      simp [hn, this]
+    · have : n - 1 = 0 := by omega
+      simp [hn, this]
+  refine ⟨objAt_new n 0, by rw [hfree]; exact hc, List.nodup_range', fun x _ => objAt_new n x, ?_, ?_, ?_,
     fun x => marked_new n x, ?_, ?_, ?_⟩
   · simp [Gc.cur, Gc.new]
   · intro x; simp [Gc.cur, Gc.new, objAt_new n x]; simpa [Gc.new] using objAt_new n x
